@@ -88,6 +88,10 @@ def _get_raw_data_from_p8_file(instr, filename=None):
             section = str(section_delim_m.group(1), encoding='utf-8')
             section_lines[section] = []
         elif section:
+            if section != 'lua' and not line.endswith(b'\n'):
+                # The file's last line has no line terminator. The data
+                # section readers go by line length including the newline.
+                line += b'\n'
             p8scii_line = lua.unicode_to_p8scii(
                 str(line, encoding='utf-8'))
             section_lines[section].append(p8scii_line)
